@@ -88,6 +88,12 @@ def simulators(EoN, G, nodes, S=("S", "I", "R"), full=False):
     sims["Gillespie_complex_contagion"] = lambda: EoN.Gillespie_complex_contagion(
         G, rate_function, lambda G_, node, status, parameters: I_ if status[node] == S_ else R_,
         lambda G_, node, status, parameters: list(G_.neighbors(node)), IC, (S_, I_, R_), tmax=50, return_full_data=full)
+    # the initial condition as a plain dict covering every node (the same object is reused by the repeated calls)
+    ICd = {v: (I_ if v in i0 else S_) for v in nodes}
+    sims["Gillespie_simple_contagion_dictIC"] = lambda: EoN.Gillespie_simple_contagion(G, H, J, ICd, (S_, I_, R_), tmax=4, return_full_data=full)
+    sims["Gillespie_complex_contagion_dictIC"] = lambda: EoN.Gillespie_complex_contagion(
+        G, rate_function, lambda G_, node, status, parameters: I_ if status[node] == S_ else R_,
+        lambda G_, node, status, parameters: list(G_.neighbors(node)), ICd, (S_, I_, R_), tmax=50, return_full_data=full)
     return sims
 
 
